@@ -465,7 +465,7 @@ func ruleChecksum(w *core.World, r *core.Report) {
 		if !ok || bad != "" {
 			return
 		}
-		if !core.IsNilConst(p.Resolve(ret.Results[0])) {
+		if !pathNil(p, ret.Results[0]) {
 			return
 		}
 		n++
